@@ -161,7 +161,26 @@ pub assume_specification [<std::task::Waker as Clone>::clone] (w: &std::task::Wa
 //@ endregion
 //@ item src/sources/timer.rs / struct TimeoutFuture props=C05
 //@ enditem
+//@ region timeout_future_wake props=C05
+pub uninterp spec fn w_waker_woken(w: std::task::Waker) -> bool;
+pub assume_specification [std::task::Waker::wake] (w: std::task::Waker)
+    ensures w_waker_woken(w);
+//@ endregion
 impl TimeoutFuture {
+//@ slice src/sources/timer.rs / impl TimeoutFuture / fn from_deadline_inner :: closure 1 props=C05 name=TimeoutFuture::from_deadline_inner::timer_callback
+//@ rw R10 * <<waker.borrow_mut()>> => <<waker_cell>>
+//@ sig
+    /// S1 slice: the body of the callback TimeoutFuture installs on its Timer (a `move` closure with pattern parameters).
+    /// R10: the borrow of the waker cell it shares with the future becomes `waker_cell`.
+    fn timeout_future_timer_callback(waker_cell: &mut Option<std::task::Waker>) -> (r: TimeoutAction)
+//@ spec
+        ensures
+            // C05 (exactly once per arming): when the timer fires, the task that last polled the future is woken (the waker
+            // it left in the shared cell) and the timer is not re-armed
+            *old(waker_cell) matches Some(w) ==> w_waker_woken(w),
+            r is Drop,
+//@ endslice
+
 //@ slice src/sources/timer.rs / impl std::future::Future for TimeoutFuture / fn poll :: body props=C05 name=TimeoutFuture::poll
 //@ rw R21 * <<match self.deadline>> => <<match slf.deadline>>
 //@ rw R10 * <<self.waker.borrow_mut()>> => <<waker_cell>>
